@@ -452,3 +452,30 @@ func Harness_C13_armor_read_fault() {
 	k, e2 := r.Read(make([]byte, 1))
 	V.Assert(k == 0 && e2 != nil && e2 != io.EOF, "a failed armor reader does not keep failing")
 }
+
+// Harness_C14_armor_junk: valid armor of 0, 47, 48 or 96 bytes (so both a short
+// and a full last line) preceded and followed by up to 2 arbitrary bytes: it
+// is accepted exactly when the extra bytes are white space, and every failure
+// carries the armor error type and is sticky.
+func Harness_C14_armor_junk() {
+	data := V.Bytes("d", []int{0, 47, 48, 96}[V.Int("nkind", 0, 3)])
+	lead := V.Bytes("lead", V.Int("nlead", 0, 2))
+	trail := V.Bytes("trail", V.Int("ntrail", 0, 2))
+	var text []byte
+	text = append(text, lead...)
+	text = append(text, refArmor(data)...)
+	text = append(text, trail...)
+	r := NewReader(bytes.NewReader(text))
+	out, err := io.ReadAll(r)
+	if err == nil {
+		V.Reach("accepted")
+		V.Assert(bytes.Equal(out, data), "accepted armor yields other bytes")
+		V.Assert(len(bytes.TrimSpace(lead)) == 0 && len(bytes.TrimSpace(trail)) == 0, "armor with foreign leading or trailing data was accepted")
+		return
+	}
+	V.Reach("rejected")
+	var ae *Error
+	V.Assert(errors.As(err, &ae), "de-armoring failure does not carry the armor error type")
+	_, e2 := r.Read(make([]byte, 1))
+	V.Assert(e2 != nil && e2 != io.EOF, "a failed armor reader does not keep failing")
+}
